@@ -49,20 +49,31 @@ def routing(ctx, sample, shape=0):
         rest = [s for s in sessions if s not in must]
         sessions = must + rnd.sample(rest, sample)
     srv = {}
+    # the clients of this run insist on a context (in half of the runs); a server session started without it, or with
+    # another one, is not a matched conversation even for the right user, record and request
+    CTX = b"application context v2" if (shape // 2) % 2 else None
+    srv_ctx = {}
+    for n_, sid in enumerate(sessions):
+        srv_ctx[sid] = CTX if (CTX is None or n_ % 5 != 4) else (None if n_ % 2 else b"application context v1")
     for (c, rec, cred) in sessions:
-        r = ctx.call("srv_login_start", ctx.tape(L.Nh + 64 + L.Nsk + 16), setup, records[rec][0], clients[c][1], cred, None, idu_of(user_of_cred[cred]), IDS)
+        r = ctx.call("srv_login_start", ctx.tape(L.Nh + 64 + L.Nsk + 16), setup, records[rec][0], clients[c][1], cred,
+                     srv_ctx[(c, rec, cred)], idu_of(user_of_cred[cred]), IDS)
         if ctx.expect(r.ok, "server session starts"):
             srv[(c, rec, cred)] = (persist(ctx, "ServerLogin", r.b(0), STORE), r.b(1))
+    if CTX is not None:
+        big = ctx.call("srv_login_start", ctx.tape(L.Nh + 64 + L.Nsk + 16), setup, records["u1"][0], clients["c1"][1], C1,
+                       b"x" * 65536, idu_of("u1"), IDS)
+        ctx.expect(not big.ok, "a session cannot be started under a context that cannot be framed (65536 bytes)")
     # every response to every pending client
     fins = {}      # (client, server session) -> (ke3, key)
     keys = []
     for c in sorted(clients):
         st, _, pw = clients[c]
         for sid in sorted(srv, key=repr):
-            r = ctx.call("login_finish", st, pw, srv[sid][1], None, idu_of(user_of_client[c]), IDS, "~")
+            r = ctx.call("login_finish", st, pw, srv[sid][1], CTX, idu_of(user_of_client[c]), IDS, "~")
             (c2, rec, cred) = sid
             matched = ((c2 == c) and records[rec][0] is not None and records[rec][1] == pw and records[rec][2] == cred
-                       and (not EXPL or user_of_cred[cred] == user_of_client[c]))
+                       and (not EXPL or user_of_cred[cred] == user_of_client[c]) and srv_ctx[sid] == CTX)
             ctx.expect(r.ok == matched, "client %s on the response of session %s: accepted=%s, matched conversation=%s (%s)"
                        % (c, (c2, rec, cred), r.ok, matched, r.err))
             if r.ok:
@@ -84,9 +95,9 @@ def routing(ctx, sample, shape=0):
     for (c, sid), (ke3, key) in list(sorted(fins.items(), key=repr))[:3]:
         r = ctx.call("login_start", ctx.btape(L.Nsk + 64), clients[c][2])
         st2, req2 = r.b(0), r.b(1)
-        r = ctx.call("login_finish", st2, clients[c][2], srv[sid][1], None, idu_of(user_of_client[c]), IDS, "~")
+        r = ctx.call("login_finish", st2, clients[c][2], srv[sid][1], CTX, idu_of(user_of_client[c]), IDS, "~")
         ctx.expect(not r.ok, "a response replayed into a later client session is rejected")
-        r = ctx.call("srv_login_start", ctx.tape(L.Nh + 64 + L.Nsk + 16), setup, records[sid[1]][0], req2, sid[2], None, idu_of(user_of_cred[sid[2]]), IDS)
+        r = ctx.call("srv_login_start", ctx.tape(L.Nh + 64 + L.Nsk + 16), setup, records[sid[1]][0], req2, sid[2], CTX, idu_of(user_of_cred[sid[2]]), IDS)
         r2 = ctx.call("srv_login_finish", r.b(0), ke3)
         ctx.expect(not r2.ok, "a finalization replayed into a later server session is rejected")
 
